@@ -335,4 +335,141 @@ theorem abstractOp_valid (cfg : DevCfg) (r : RegionId) (op : AsyncOp) (h : op.va
   | setAdr on => rfl
   | setDr dr => exact h
 
+/-! ## a predicate on the decoded views of the scripts carries over to the abstracted events -/
+
+def ScriptItem.allView (P : RxView → Bool) : ScriptItem → Bool
+  | .frame _ v => P v
+  | _ => true
+
+def rxAll (P : RxView → Bool) : Option (RxView × Int) → Bool
+  | some (v, _) => P v
+  | none => true
+
+theorem nextItem_all (P : RxView → Bool) {s : List ScriptItem} (h : s.all (ScriptItem.allView P) = true) :
+    (nextItem s).1.allView P = true ∧ (nextItem s).2.all (ScriptItem.allView P) = true := by
+  cases s with
+  | nil => exact ⟨rfl, rfl⟩
+  | cons i rest =>
+    simp only [List.all_cons, Bool.and_eq_true] at h
+    exact ⟨h.1, h.2⟩
+
+theorem leadFrames_all (P : RxView → Bool) {s : List ScriptItem} (h : s.all (ScriptItem.allView P) = true) :
+    (leadFrames s).2.all (ScriptItem.allView P) = true := by
+  induction s with
+  | nil => rfl
+  | cons i rest ih =>
+    simp only [List.all_cons, Bool.and_eq_true] at h
+    cases i with
+    | ok => exact h.2
+    | err => exact h.2
+    | frame snr v => exact ih h.2
+
+/-- the frames of the two windows, as `abstractSendC` / `abstractJoinC` read them, satisfy what
+every frame of the script satisfies -/
+theorem parseWin_all (P : RxView → Bool) (cc : Bool) {s : List ScriptItem} (h : s.all (ScriptItem.allView P) = true) :
+    rxAll P (parseWin cc s).1.f = true ∧ (parseWin cc s).2.all (ScriptItem.allView P) = true := by
+  have hb : (parseBetween cc s).2.2.all (ScriptItem.allView P) = true := by
+    unfold parseBetween
+    split
+    · exact (nextItem_all P h).2
+    · split
+      · exact leadFrames_all P (nextItem_all P h).2
+      · exact (nextItem_all P h).2
+  unfold parseWin
+  split
+  · exact ⟨rfl, hb⟩
+  · unfold parseListen
+    have h1 := nextItem_all P hb
+    have h2 := nextItem_all P h1.2
+    have h3 := nextItem_all P h2.2
+    split
+    · exact ⟨rfl, h1.2⟩
+    · split
+      · exact ⟨rfl, h2.2⟩
+      · refine ⟨?_, h3.2⟩
+        cases hi : (nextItem (nextItem (parseBetween cc s).2.2).2).1 with
+        | ok => rfl
+        | err => rfl
+        | frame snr v =>
+          have := h2.1
+          rw [hi] at this
+          exact this
+
+/-- the RX1 / RX2 frames of an event of `Model/History.lean` -/
+def Ev.rxs : Ev → List (Option (RxView × Int))
+  | .uplink _ _ _ _ rx1 rx2 _ _ => [rx1, rx2]
+  | .joinOtaa _ rx1 rx2 _ _ => [rx1, rx2]
+  | _ => []
+
+def AsyncOp.allView (P : RxView → Bool) : AsyncOp → Bool
+  | .send _ _ _ script => script.all (ScriptItem.allView P)
+  | .join script => script.all (ScriptItem.allView P)
+  | _ => true
+
+theorem plainOf_uplinkC_rxs {σ} (g : Rng σ) (m : MacState) (s : σ) (cc : Bool) (d : List Nat) (p : Nat) (c : Bool)
+    (fault : Option FaultPos) (c1 c2 : List (RxView × Int)) (rx1 rx2 : Option (RxView × Int)) :
+    (plainOf g m s (.uplinkC cc d p c fault c1 rx1 c2 rx2)).rxs = [rx1, rx2] := by
+  simp only [plainOf]
+  split <;> rfl
+
+theorem plainOf_joinC_rxs {σ} (g : Rng σ) (m : MacState) (s : σ) (cc : Bool)
+    (fault : Option FaultPos) (c1 c2 : List (RxView × Int)) (rx1 rx2 : Option (RxView × Int)) :
+    (plainOf g m s (.joinC cc fault c1 rx1 c2 rx2)).rxs = [rx1, rx2] := by
+  simp only [plainOf]
+  split <;> rfl
+
+theorem plainOf_abstractOp_rxs {σ} (g : Rng σ) (cfg : DevCfg) (P : RxView → Bool) (op : AsyncOp) (h : op.allView P = true)
+    (m : MacState) (s : σ) : ∀ f ∈ (plainOf g m s (abstractOp cfg op)).rxs, rxAll P f = true := by
+  cases op with
+  | send data port conf script =>
+    simp only [AsyncOp.allView] at h
+    have hw1 := parseWin_all P cfg.classC (nextItem_all P h).2
+    have hw2 := parseWin_all P cfg.classC hw1.2
+    show ∀ f ∈ (plainOf g m s (abstractSendC cfg script data port conf)).rxs, rxAll P f = true
+    unfold abstractSendC
+    split
+    · rw [plainOf_uplinkC_rxs]
+      intro f hf
+      simp only [List.mem_cons, List.not_mem_nil, or_false] at hf
+      rcases hf with rfl | rfl <;> rfl
+    · rw [plainOf_uplinkC_rxs]
+      intro f hf
+      simp only [List.mem_cons, List.not_mem_nil, or_false] at hf
+      rcases hf with rfl | rfl
+      · exact hw1.1
+      · exact hw2.1
+  | join script =>
+    simp only [AsyncOp.allView] at h
+    have hw1 := parseWin_all P cfg.classC (nextItem_all P h).2
+    have hw2 := parseWin_all P cfg.classC hw1.2
+    show ∀ f ∈ (plainOf g m s (abstractJoinC cfg script)).rxs, rxAll P f = true
+    unfold abstractJoinC
+    split
+    · rw [plainOf_joinC_rxs]
+      intro f hf
+      simp only [List.mem_cons, List.not_mem_nil, or_false] at hf
+      rcases hf with rfl | rfl <;> rfl
+    · rw [plainOf_joinC_rxs]
+      intro f hf
+      simp only [List.mem_cons, List.not_mem_nil, or_false] at hf
+      rcases hf with rfl | rfl
+      · exact hw1.1
+      · exact hw2.1
+  | abp da nwk app => intro f hf; simp [abstractOp, plainOf, Ev.rxs] at hf
+  | setAdr on => intro f hf; simp [abstractOp, plainOf, Ev.rxs] at hf
+  | setDr dr => intro f hf; simp [abstractOp, plainOf, Ev.rxs] at hf
+
+theorem plainRun_all {σ} (g : Rng σ) (Q : Ev → Prop) (evs : List EvC) (h : ∀ ev ∈ evs, ∀ m s, Q (plainOf g m s ev))
+    (ms : MacState × σ) : ∀ e ∈ plainRun g ms evs, Q e := by
+  induction evs generalizing ms with
+  | nil => intro e he; cases he
+  | cons ev rest ih =>
+    intro e he
+    simp only [plainRun, List.mem_cons] at he
+    rcases he with rfl | he
+    · exact h ev List.mem_cons_self _ _
+    · split at he
+      · exact ih (fun ev' hev => h ev' (List.mem_cons_of_mem _ hev)) _ e he
+      · cases he
+
 end Model
